@@ -951,7 +951,30 @@ def _int_index_array(ix, n, mode="raise"):
     return lambda j: z3.If(f(j) < 0, f(j) + nt, f(j))
 
 
+def _memo(op, a, make):
+    """NumPy functions are deterministic: the same operation on the same array *content* (same buffer,
+    same content function, same view) yields the same symbols on a path.  Without this the equality of
+    two enumerations of the same mask would need induction."""
+    c = ctx()
+    memo = c.__dict__.setdefault("memo", {})
+    key = (op, id(a.buf), id(a.buf.fn), id(a.imap))
+    hit = memo.get(key)
+    if hit is not None:
+        return hit[0]
+    r = make()
+    memo[key] = (r, a, a.buf.fn, a.imap)      # keep the keyed objects alive so ids cannot be recycled
+    return r
+
+
 def mask_positions(mask):
+    def make():
+        r = _mask_positions(mask)
+        r.buf.tags["mask_of"] = mask
+        return r
+    return _memo("mask_positions", mask, make)
+
+
+def _mask_positions(mask):
     """strictly increasing enumeration of the true positions of a 1-D boolean array.
     Library contract `nonzero`: fresh count m, enumeration e, rank witness rk."""
     ctx().lib("nonzero/boolean-compress")
@@ -1031,6 +1054,15 @@ def _getitem(a, key):
             raise OutOfSubset("N-d boolean mask read")
         key = (key,)
     return _index_nd(a, key)
+
+
+def expand_slice(slice_, size):
+    """model of `np.arange(*slice_.indices(size))` (slice.indices is a CPython builtin that needs concrete
+    integers; this is its definition over the symbolic slice arithmetic above)"""
+    lo, cnt, step = slice_params(slice_, size)
+    r = ndarray.from_fn(lambda i: zint(lo) + step * zint(i), (cnt,), "i", "int")
+    r.buf.tags["arange"] = (lo, cnt, step)
+    return r
 
 
 def _expand_key(key, ndim):
@@ -1225,7 +1257,8 @@ def _setitem(a, key, value):
                 return NAN
             return to_z3(float(t)) if isinstance(t, float) else z3.RealVal(t)
         if buf.elem == "int" and ((z3.is_expr(t) and z3.is_real(t)) or isinstance(t, float)):
-            raise OutOfSubset("float assigned into an int array (truncation)")
+            t = to_z3(t)       # NumPy truncates toward zero when a float is stored into an int array
+            return z3.If(t >= 0, z3.ToInt(t), -z3.ToInt(-t))
         if buf.elem in ("int", "real") and (isinstance(t, str) or (z3.is_expr(t) and False)):
             raise ValueError("could not convert string to float")
         return to_z3(t) if isinstance(t, (bool, int)) and buf.elem != "py" else t
@@ -1254,17 +1287,25 @@ def _setitem(a, key, value):
             t = conv(_scalar_term(value))
             buf.fn = lambda *idx: t
         return
-    if nd == 1 and not isinstance(key, tuple):
-        key = (key,)
+    if isinstance(key, ndarray) and key.kind == "b" and key.ndim == nd and nd > 1:
+        # full-shape boolean mask: a[mask] = scalar (array right-hand sides need the row-major rank of each
+        # true cell and are out of subset)
+        if isinstance(value, ndarray):
+            raise OutOfSubset("N-d boolean mask assignment of an array")
+        for s_m, s_a in zip(key._shape, a._shape):
+            if s_m is not s_a and not ctx().decide(zint(s_m) == zint(s_a), "mask has the array's shape"):
+                raise IndexError("boolean index did not match indexed array")
+        fm = key.snapshot()
+        tv = conv(_scalar_term(value))
+        buf.fn = lambda *idx: z3.If(fm(*idx), tv, old(*idx))
+        return
     if not isinstance(key, tuple):
         key = (key,)
     key = _expand_key(key, nd)
     if builtins.any(k is None for k in key):
         raise OutOfSubset("newaxis in assignment")
-    # per-dimension membership test and selection-coordinate function
-    tests = []       # per dim: (member(i) -> Bool, coord(i) -> Int or None(if dropped))
-    seldims = []
-    n_adv = 0
+    # per-dimension: membership test of a source position, and its coordinate in the selection
+    tests = []       # per dim: (member(i) -> Bool, coord(i) -> Int | None if the dim is dropped, extent | None)
     for d, k in enumerate(key):
         n = a._shape[d]
         if isinstance(k, (int, SymInt)) and not isinstance(k, bool):
@@ -1272,41 +1313,83 @@ def _setitem(a, key, value):
             tests.append((lambda i, j=j: zint(i) == zint(j), None, None))
         elif isinstance(k, slice):
             lo, cnt, step = slice_params(k, n)
-            lo_t = zint(lo)
-            if step == 1:
-                mem = lambda i, lo_t=lo_t, cnt=cnt: z3.And(zint(i) >= lo_t, zint(i) < lo_t + zint(cnt))
-                co = lambda i, lo_t=lo_t: zint(i) - lo_t
+            lo_t, cnt_t = zint(lo), zint(cnt)
+            if step > 0:
+                mem = lambda i, lo_t=lo_t, cnt_t=cnt_t, step=step: z3.And(zint(i) >= lo_t, (zint(i) - lo_t) % step == 0, (zint(i) - lo_t) / step < cnt_t)
+                co = lambda i, lo_t=lo_t, step=step: (zint(i) - lo_t) / step
             else:
-                raise OutOfSubset("strided slice assignment")
+                mem = lambda i, lo_t=lo_t, cnt_t=cnt_t, step=step: z3.And(zint(i) <= lo_t, (lo_t - zint(i)) % (-step) == 0, (lo_t - zint(i)) / (-step) < cnt_t)
+                co = lambda i, lo_t=lo_t, step=step: (lo_t - zint(i)) / (-step)
+            tests.append((mem, co, cnt))
+        elif isinstance(k, ndarray) and k.is_whole() and "arange" in k.buf.tags:
+            # positions that are the expansion of a slice: closed-form membership
+            lo, cnt, step = k.buf.tags["arange"]
+            lo_t, cnt_t = zint(lo), zint(cnt)
+            if step > 0:
+                mem = lambda i, lo_t=lo_t, cnt_t=cnt_t, step=step: z3.And(zint(i) >= lo_t, (zint(i) - lo_t) % step == 0, (zint(i) - lo_t) / step < cnt_t)
+                co = lambda i, lo_t=lo_t, step=step: (zint(i) - lo_t) / step
+            else:
+                mem = lambda i, lo_t=lo_t, cnt_t=cnt_t, step=step: z3.And(zint(i) <= lo_t, (lo_t - zint(i)) % (-step) == 0, (lo_t - zint(i)) / (-step) < cnt_t)
+                co = lambda i, lo_t=lo_t, step=step: (lo_t - zint(i)) / (-step)
             tests.append((mem, co, cnt))
         elif isinstance(k, (list, tuple, ndarray)):
             arr = asarray(k)
-            n_adv += 1
+            if arr.kind != "b" and arr.is_whole() and "mask_of" in arr.buf.tags:
+                arr = arr.buf.tags["mask_of"]       # np.nonzero(mask) used as an index: same selection as the mask itself
             if arr.kind == "b":
-                fm = arr.snapshot()
                 if arr.ndim != 1:
                     raise OutOfSubset("N-d mask in tuple assignment")
                 if not ctx().decide(zint(arr._shape[0]) == zint(n), "boolean index has the axis length"):
                     raise IndexError("boolean index did not match")
+                fm = arr.snapshot()
                 pos = mask_positions(arr)
-                # rank of a true position = its selection coordinate; use witness via positions enumeration
                 fp = pos.snapshot()
                 rk = z3.Function(fresh_name("sel_rank"), z3.IntSort(), z3.IntSort())
-                ctx().add(forall(0, pos._shape[0], lambda q: rk(fp(q)) == q))
+                ctx().add(forall(0, pos._shape[0], lambda q: rk(fp(q)) == q, dom=n))
                 tests.append((lambda i, fm=fm: fm(zint(i)), lambda i, rk=rk: rk(zint(i)), pos._shape[0]))
+            elif arr.kind in "iu" or conc(arr.size) == 0:
+                # integer positions (1-D, or one factor of an np.ix_ open mesh): the written cell for a repeated
+                # position is the LAST one (NumPy assigns in order).  w(p) = last k with arr[k] == p.
+                own = [ax for ax, s_ in enumerate(arr._shape) if conc(s_) != 1]
+                if len(own) > 1:
+                    raise OutOfSubset("integer index array that is not 1-D / an open-mesh factor")
+                ax_own = own[0] if own else (arr.ndim - 1)
+                m = arr._shape[ax_own] if arr.ndim else 1
+                fraw = arr.snapshot()
+                nd_arr = arr.ndim
+                f1 = lambda kk, fraw=fraw, ax_own=ax_own, nd_arr=nd_arr: fraw(*[kk if u == ax_own else 0 for u in range(nd_arr)])
+                nt = zint(n)
+                ok = forall(0, m, lambda kk: z3.And(f1(kk) >= -nt, f1(kk) < nt))
+                if not ctx().decide(ok, "integer index array in bounds"):
+                    raise IndexError("index out of bounds")
+                g = lambda kk, f1=f1, nt=nt: z3.If(f1(kk) < 0, f1(kk) + nt, f1(kk))
+                cm = conc(m)
+                if cm is not None and cm <= 6:
+                    def mem(i, g=g, cm=cm):
+                        return z3.Or([g(kk) == zint(i) for kk in range(cm)]) if cm else z3.BoolVal(False)
+                    def co(i, g=g, cm=cm):
+                        out = z3.IntVal(0)
+                        for kk in range(cm):
+                            out = z3.If(g(kk) == zint(i), kk, out)     # later k overrides: last write wins
+                        return out
+                else:
+                    w = z3.Function(fresh_name("last_write"), z3.IntSort(), z3.IntSort())
+                    mt = zint(m)
+                    ctx().add(forall(0, mt, lambda kk: z3.And(w(g(kk)) >= kk, w(g(kk)) < mt, g(w(g(kk))) == g(kk))))
+                    mem = lambda i, w=w, mt=mt, g=g: z3.And(w(zint(i)) >= 0, w(zint(i)) < mt, g(w(zint(i))) == zint(i))
+                    co = lambda i, w=w: w(zint(i))
+                tests.append((mem, co, m))
             else:
-                raise OutOfSubset("integer-array assignment (duplicates: last write wins)")
+                raise IndexError("arrays used as indices must be of integer (or boolean) type")
         else:
             raise OutOfSubset("assignment key component %s" % type(k).__name__)
-    if n_adv > 1:
-        raise OutOfSubset("several advanced indices in one assignment")
     selshape = tuple(t[2] for t in tests if t[1] is not None)
     if isinstance(value, ndarray):
         vshape, ia, ib = _bshape(selshape, value._shape)
         if len(vshape) != len(selshape):
             raise ValueError("could not broadcast input array")
         for s_out, s_in in zip(vshape, selshape):
-            if conc(s_out) is None and s_out is not s_in or (conc(s_out) is not None and conc(s_out) != conc(s_in)):
+            if (conc(s_out) is None and s_out is not s_in) or (conc(s_out) is not None and conc(s_out) != conc(s_in)):
                 if not ctx().decide(zint(s_out) == zint(s_in), "assignment broadcast fits"):
                     raise ValueError("could not broadcast input array from shape into shape")
         fv = value.snapshot()
@@ -1464,7 +1547,10 @@ def ix_(*args):
             x = mask_positions(x)
         f = x.snapshot()
         shape = tuple(x._shape[0] if u == t else 1 for u in range(n))
-        out.append(ndarray.from_fn(lambda *idx, f=f, t=t: f(idx[t]), shape, x.kind, x.elem))
+        r = ndarray.from_fn(lambda *idx, f=f, t=t: f(idx[t]), shape, x.kind, x.elem)
+        if x.is_whole():
+            r.buf.tags.update(x.buf.tags)
+        out.append(r)
     return tuple(out)
 
 
@@ -1618,8 +1704,12 @@ def searchsorted(a, v, side="left", sorter=None):
 
 
 def argsort(a, axis=-1, kind=None):
-    """contract: a permutation p of [0,n) (explicit inverse q) with a[p] non-decreasing"""
     a = _need_1d(a, "argsort")
+    return _memo("argsort", a, lambda: _argsort(a))
+
+
+def _argsort(a):
+    """contract: a permutation p of [0,n) (explicit inverse q) with a[p] non-decreasing"""
     c = ctx()
     c.lib("argsort")
     n = a._shape[0]
